@@ -682,13 +682,13 @@ Section Round.
      else if tdup oids || tdup sids then RErr E_TABLE
      else ROk (mkX oids sids (dense_of (length oids) (length sids) (all_triples 0 mx))
                    (match md with
-                    | None => None
-                    | Some l => Some (map (fun v => [(match name with Some n => n | None => [] end, process v)]) l)
+                    | Some ((_ :: _) as l) => Some (map (fun v => [(match name with Some n => n | None => [] end, process v)]) l)
+                    | _ => None
                     end)))
     = ROk (mkX oids sids mx
                (match md with
-                | None => None
-                | Some l => Some (map (fun v => [(match name with Some n => n | None => [] end, process v)]) l)
+                | Some ((_ :: _) as l) => Some (map (fun v => [(match name with Some n => n | None => [] end, process v)]) l)
+                | _ => None
                 end)).
   Proof.
     intros W1 W2 W3 W4. rewrite <- W1. rewrite (in_shape_all_triples _ _ W2). cbn [negb].
@@ -803,8 +803,11 @@ Section Round.
     unfold from_tsv. rewrite Hhl.
     rewrite (extract_written l (x_sids c ++ [hv]) false Hrows Hl).
     - cbn [e_md e_oids e_sids e_data e_name]. rewrite P1, P2, removelast_snoc, last_snoc, Hlast.
-      rewrite (construct_written (x_oids c) (x_sids c) (x_mat c) (Some (map strip ms)) (Some hv) W1 W2 W3 W4).
-      rewrite map_map. reflexivity.
+      assert (Hmne : ms <> []).
+      { intros E. rewrite Ems in E. apply map_eq_nil in E. rewrite E in W5. simpl in W5. destruct (x_oids c); [congruence|discriminate]. }
+      destruct (map strip ms) as [|m0 r0] eqn:Em; [apply map_eq_nil in Em; congruence|].
+      etransitivity; [exact (construct_written (x_oids c) (x_sids c) (x_mat c) (Some (m0 :: r0)) (Some hv) W1 W2 W3 W4)|].
+      cbv iota. rewrite <- Em, map_map. reflexivity.
     - destruct (x_sids c); discriminate.
     - apply Forall_app. split; [exact Hs3|constructor; [apply Hhvok|constructor]].
     - rewrite !last_snoc. exact Hhvl.
